@@ -26,7 +26,7 @@ NODE_MUTATORS = ["name", "needs_seed", "add_inputs", "set_inputs"]
 CALC_MUTATORS = ["function"]
 DIST_MUTATORS = ["at", "distribution", "per_obs"]
 VAR_MUTATORS = ["name", "observed", "parameter", "value_node", "dist_node", "transform"]
-INVALID = ["dup_node_name", "dup_var_name", "dup_group_name", "reserved_name", "cycle", "cycle_via_at", "cycle_then_repair", "dropped_model_rebuild"]
+INVALID = ["dup_node_name", "dup_var_owned_node_name", "dup_var_name", "dup_group_name", "reserved_name", "cycle", "cycle_via_at", "cycle_then_repair", "dropped_model_rebuild"]
 
 
 def gen_plan(rng, tier: str, idx: int) -> dict:
@@ -58,8 +58,12 @@ def gen_plan(rng, tier: str, idx: int) -> dict:
             ops.append(["roundtrip", rng.choice(ROUNDTRIPS), rng.randrange(10**6)])
         elif r < 0.93:
             ops.append(["mutate", rng.choice(["node", "calc", "dist", "var"]), rng.randrange(10**6)])
-        else:
+        elif r < 0.97:
             ops.append(["invalid_build", rng.choice(INVALID)])
+        else:
+            # the generated program plus one more object whose node name collides with the k-th
+            # explicitly named node of the program (free node, or a node owned by a variable)
+            ops.append(["invalid_build", "dup_generated", rng.randrange(10**6)])
     return {"spec": spec, "ops": ops, "build_copy": rng.random() < 0.3}
 
 
@@ -339,6 +343,38 @@ def rebuild_scenarios(kind, V, counters):
     counters[f"probe.{kind}"] = counters.get(f"probe.{kind}", 0) + 1
 
 
+def dup_generated(spec, model, k, V, counters):
+    """F6: the program of this run, built afresh, plus one object that re-uses the name of one of
+    its explicitly named nodes. Every such graph must be rejected, whoever owns the nodes."""
+    named = sorted({n for it in spec if not it.get("unnamed") and it["k"] != "group" for n in M.item_names(it) if n} & set(model.nodes))
+    if not named:
+        return
+    clash = named[k % len(named)]
+    variant = (k // len(named)) % 3
+    b = M.construct(spec)
+    gb = lsl.GraphBuilder()
+    for i, it in enumerate(spec):
+        if it["k"] != "group":
+            gb.add(b.obj[i])
+    if variant == 0:
+        extra, label = Value(jnp.float32(1.0), _name=clash), "free-value"
+    elif variant == 1:
+        extra, label = lsl.Var(Value(jnp.float32(1.0), _name=clash), name="zz_dup_owner"), "var-owned-value-node"
+    else:
+        extra = lsl.Var(jnp.float32(1.0), name="zz_dup_owner2")
+        extra.var_value_node.name = clash
+        label = "var-owned-var-value-node"
+    gb.add(extra)
+    counters["fault.F6_invalid_builds"] = counters.get("fault.F6_invalid_builds", 0) + 1
+    counters["probe.dup_generated_" + label] = counters.get("probe.dup_generated_" + label, 0) + 1
+    try:
+        gb.build_model()
+    except Exception:
+        counters["fault.F6_invalid_build_rejected"] = counters.get("fault.F6_invalid_build_rejected", 0) + 1
+        return
+    V.add("invalid-graph-accepted", f"dup_generated/{label}", f"the program plus a {label} named {clash!r} (a node name already in the program) was built without error")
+
+
 def invalid_build(kind, V, counters):
     """F6: graphs that must be rejected."""
     if kind in ("cycle_then_repair", "dropped_model_rebuild"):
@@ -349,6 +385,12 @@ def invalid_build(kind, V, counters):
     gb = lsl.GraphBuilder()
     if kind == "dup_node_name":
         d = Calc(lambda x: x * 2, a, _name="c")
+        gb.add(c, d)
+    elif kind == "dup_var_owned_node_name":
+        # all variable names are distinct; a's VarValue node and a_var's value node are both
+        # called a_var_value
+        a_var = lsl.Var(jnp.float32(3.0), name="a_var")
+        d = Calc(lambda x, y: x * y, a, a_var, _name="d")
         gb.add(c, d)
     elif kind == "dup_var_name":
         # only the *variable* names collide; all node names are distinct
@@ -456,7 +498,10 @@ def execute(plan: dict) -> dict:
             try_mutation(model, op[1], op[2], V, counters)
             log.add(i, op)
         elif kind == "invalid_build":
-            invalid_build(op[1], V, counters)
+            if op[1] == "dup_generated":
+                dup_generated(spec, model, op[2], V, counters)
+            else:
+                invalid_build(op[1], V, counters)
             log.add(i, op)
         elif kind == "roundtrip":
             how = op[1]
